@@ -15,7 +15,7 @@ for d in sorted(glob.glob('/verif/seeded/*')):
         break
     line = re.sub(r'\s+', ' ', line).replace('|', '/')[:150]
     name = os.path.basename(d)
-    first = "missed" if (m.get('missed_at_first') or name in ("C07-m2", "C08-m2", "C12-m2", "C11-m1")) else "caught"
+    first = "missed" if (m.get('missed_at_first') or not m['caught_by'] or name in ("C07-m2", "C08-m2", "C12-m2", "C11-m1")) else "caught"
     rows.append("| %s | %s | %s | %s |" % (name, first, ", ".join(m['caught_by']) or "MISSED", line))
 table = "| seed | at first | caught by (now) | what it changes / needs to manifest (first line of its README) |\n|------|------|-----------|----------------------------------------------|\n" + "\n".join(rows) + "\n"
 p = '/verif/DESIGN.md'
